@@ -9,9 +9,10 @@
       then read from bytes that overlap the trailer itself (`xap_trailerSize_lt8_rejected`);
     * `make([]byte, hdr.SignatureSize)`: reached only when `SignatureSize = TrailerSize − 8` and header and trailer were
       both read from inside the file, hence at most `len(file)` bytes (`xap_verify_alloc_le`);
-    * `removeSignature`: `size -= int(tr.TrailerSize)+10` going negative is guarded (`if size < 0 { return cd }`), blobs
-      shorter than ten bytes are guarded (`xap_removeSignature_total`); the older model `CsBlob.removeSignature true`
-      (the guarded variant C11 already carries) is the same function.
+    * `removeSignature` (repaired for FX1: defined through `SignatureFrameSize`): every read lies inside the blob, the frame
+      never exceeds it, so `cd[:len(cd)-frame]` is in range (`xap_removeSignature_total`); the older model
+      `CsBlob.removeSignature true` (the guarded variant C11 already carries) is `removeSignatureOrig`, the code before that
+      repair, and the repaired function strips only where that one did.
 -/
 import Relic.Proofs.Xap
 import Relic.Props.C11
@@ -199,7 +200,7 @@ theorem walk_no_panic (cd : Bytes) (clean : Bool) (ms : List Member) : NoPanic (
 /-- **xap_digest_no_panic.** `DigestXapTar` never panics, for every member list and ending – including a directory member
     longer than the zip member (`bodySize` negative: `io.CopyN` copies nothing) and directory blobs of every length. -/
 theorem xap_digest_no_panic (ms : List Member) (clean : Bool) : NoPanic (digestTar ms clean) := by
-  unfold digestTar
+  unfold digestTar digestTarWith
   refine noPanic_bind (walk_no_panic [] clean ms).1 fun a _ => ?_
   obtain ⟨cd, m⟩ := a
   simp only []
@@ -207,14 +208,18 @@ theorem xap_digest_no_panic (ms : List Member) (clean : Bool) : NoPanic (digestT
   · exact noPanic_err _
   · exact noPanic_ok _
 
-/-- **xap_removeSignature_total.** `removeSignature` as it stands (both guards) is a total function returning a prefix of its
-    argument; it is the guarded variant of the older model (`CsBlob.removeSignature true`), whose theorems keep applying. -/
+/-- **xap_removeSignature_total.** `removeSignature` as repaired is a total function returning a prefix of its argument: the
+    frame length `SignatureFrameSize` reports never exceeds the blob, so the slice expression is in range.  It changes its
+    argument only where the code before the repair did, and then in the same way; that earlier code is the guarded variant of
+    the older model (`CsBlob.removeSignature true`), whose theorems keep applying to it. -/
 theorem xap_removeSignature_total (cd : Bytes) :
-    CsBlob.removeSignature true cd = .ok (Xap.removeSignature cd) ∧
+    frameSize cd ≤ cd.length ∧
     Xap.removeSignature cd = cd.take (Xap.removeSignature cd).length ∧
-    (cd.length < trSize cd + 10 → Xap.removeSignature cd = cd) := by
-  refine ⟨?_, removeSignature_take cd, ?_⟩
-  · unfold CsBlob.removeSignature Xap.removeSignature trMagic trSize trailerMagic
+    (Xap.removeSignature cd = cd ∨ Xap.removeSignature cd = removeSignatureOrig cd) ∧
+    CsBlob.removeSignature true cd = .ok (removeSignatureOrig cd) ∧
+    (cd.length < trSize cd + 10 ∨ trSize cd < 8 → Xap.removeSignature cd = cd) := by
+  refine ⟨frameSize_le cd, removeSignature_take cd, removeSignature_eq_or cd, ?_, ?_⟩
+  · unfold CsBlob.removeSignature removeSignatureOrig trMagic trSize trailerMagic
     by_cases h1 : cd.length < 10
     · rw [if_pos h1, if_pos h1]; rfl
     · rw [if_neg h1, if_neg h1]
@@ -226,9 +231,12 @@ theorem xap_removeSignature_total (cd : Bytes) :
         · rw [if_neg h3, if_neg h3]
       · rw [if_neg h2, if_neg h2]
   · intro h
-    rcases removeSignature_cases cd with ⟨e, _⟩ | ⟨_, _, _, h3⟩
-    · exact e
-    · omega
+    have h0 : frameSize cd = 0 := by
+      refine Classical.byContradiction fun hne => ?_
+      obtain ⟨_, _, h8, hfit, _, _⟩ := frameSize_pos cd hne
+      omega
+    unfold Xap.removeSignature
+    rw [h0, Nat.sub_zero, List.take_length]
 
 /-! ### witnesses: the boundaries on concrete inputs -/
 
@@ -246,8 +254,11 @@ example :
     -- sizes at the int64 extremes: offsets wrap to beyond the file
     locate [1, 2, 3] (-9223372036854775808) = .err "eof" ∧ locate [1, 2, 3] (-9223372036854775798) = .err "negoff" ∧
     locate [1, 2, 3] 9223372036854775807 = .err "eof" ∧
-    -- a directory blob whose trailer claims more than the blob holds is left alone
+    -- a directory blob whose trailer claims more than the blob holds is left alone; one without a matching header too
+    -- (the code before the repair cut it off); a complete frame is removed
     Xap.removeSignature (List.replicate 5 1 ++ trailer 1 6) = List.replicate 5 1 ++ trailer 1 6 ∧
-    Xap.removeSignature (List.replicate 5 1 ++ trailer 1 5) = [] := by decide
+    Xap.removeSignature (List.replicate 5 1 ++ trailer 1 5) = List.replicate 5 1 ++ trailer 1 5 ∧
+    removeSignatureOrig (List.replicate 5 1 ++ trailer 1 5) = [] ∧
+    Xap.removeSignature ([1, 2] ++ sigBlock [3, 4, 5]) = [1, 2] := by decide
 
 end Relic.Props.C11
